@@ -754,6 +754,13 @@ M('c20_skip_marker_byte', ['C20'], ['C20-R2'], 'decode_member silently skips a l
         }
         let remaining = buf.remaining();'''))
 
+M('c20_try_push_needs_two', ['C20'], ['C20-R1'], 'postcard flavor refuses the last byte of the buffer (exact fit is an error)',
+  (POSTCARD, '        if self.0.has_remaining_mut() {', '        if self.0.remaining_mut() > 1 {'))
+M('c20_try_extend_strict', ['C20'], ['C20-R1'], 'postcard flavor refuses a slice that exactly fills the buffer',
+  (POSTCARD, '        if self.0.remaining_mut() >= data.len() {', '        if self.0.remaining_mut() > data.len() {'))
+M('c08_owned_rename_swapped', ['C08'], ['C08-R7'], 'to_owned clones the identities of Rename in swapped order',
+  ('src/runtime.rs', 'OwnedNotification::Rename(before.clone(), after.clone())', 'OwnedNotification::Rename(after.clone(), before.clone())'))
+
 # ================================================================ neutral (behaviour-preserving) edits
 ALL = ['C01', 'C06', 'C07', 'C08', 'C09', 'C10', 'C11', 'C12', 'C13', 'C15', 'C16', 'C17', 'C18', 'C19', 'C20']
 N('n_comments_and_blank_lines', ALL, 'comments and blank lines added; every line number after them shifts',
@@ -1208,3 +1215,110 @@ NP('n_ref5_janitor_member_broadcast', ALL, 'R37: janitorial pass over member.rs 
 NP('n_ref5_janitor_small_files', ALL, 'R38: janitorial pass over the small files and codecs', 'selftest/neutral/R38.diff')
 NP('n_ref5_error_style', ALL, 'R39: 12 error-handling style rewrites', 'selftest/neutral/R39.diff')
 NP('n_ref5_boolean_logic', ALL, 'R40: 14 boolean/control-flow rewrites', 'selftest/neutral/R40.diff')
+N('c20_flavor_other_spellings', ['C20', 'C06'], 'bounded flavor: flipped comparison in try_extend, early-return refusal in try_push',
+  (POSTCARD, '        if self.0.remaining_mut() >= data.len() {\n            self.0.put_slice(data);\n            Ok(())\n        } else {\n            Err(postcard::Error::SerializeBufferFull)\n        }',
+   '        if data.len() > self.0.remaining_mut() {\n            return Err(postcard::Error::SerializeBufferFull);\n        }\n        self.0.put_slice(data);\n        Ok(())'),
+  (POSTCARD, '        if self.0.has_remaining_mut() {\n            self.0.put_u8(data);\n            Ok(())\n        } else {\n            Err(postcard::Error::SerializeBufferFull)\n        }',
+   '        if self.0.remaining_mut() == 0 {\n            return Err(postcard::Error::SerializeBufferFull);\n        }\n        self.0.put_u8(data);\n        Ok(())'))
+N('c08_to_owned_temporaries', ['C08'], 'to_owned binds the clones to temporaries first',
+  ('src/runtime.rs', 'OwnedNotification::Rename(before.clone(), after.clone())', 'let (b, a) = (before.clone(), after.clone());\n                OwnedNotification::Rename(b, a)'))
+
+# round 6 of refactors by sub-agents (combinators <-> loops, arithmetic spelling, borrowing style, private signatures,
+# loop forms, constants, patterns, statement-level tidying of the intricate functions)
+NP('n_ref6_combinators', ALL, 'R41: 14 combinator <-> match/loop rewrites', 'selftest/neutral/R41.diff')
+NP('n_ref6_arithmetic', ALL, 'R42: 14 arithmetic / length spelling rewrites', 'selftest/neutral/R42.diff')
+NP('n_ref6_borrowing', ALL, 'R43: 13 borrowing / ownership style rewrites', 'selftest/neutral/R43.diff')
+NP('n_ref6_private_signatures', ALL, 'R44: 9 private signature changes (params reordered / added, functions split and merged)', 'selftest/neutral/R44.diff')
+NP('n_ref6_loop_forms', ALL, 'R45: 10 loop-form rewrites', 'selftest/neutral/R45.diff')
+NP('n_ref6_constants', ALL, 'R46: 14 constant / literal / type spelling rewrites', 'selftest/neutral/R46.diff')
+NP('n_ref6_patterns', ALL, 'R47: 14 pattern-matching style rewrites', 'selftest/neutral/R47.diff')
+NP('n_ref6_intricate_functions', ALL, 'R48: 15 statement-level edits inside the most intricate functions', 'selftest/neutral/R48.diff')
+
+# mutants on top of the round-6 refactors: the rules must still bite on the new spellings
+MP('r41_is_active_loop_ignores_state', ['C08', 'C19'], ['C08-R0', 'C19-R0'], 'loop form of Members::is_active without the state test',
+   'selftest/neutral/R41.diff', (MEMBER, '            if &member.id == id && member.is_active() {', '            if &member.id == id {'))
+MP('r41_indirect_ack_loop_wrong_test', ['C12'], ['C12-R1'], 'loop form of the helper search accepts any other helper',
+   'selftest/neutral/R41.diff', (PROBE, '            if id == from {', '            if id != from {'))
+MP('r42_feed_cap_dropped', ['C07', 'C06'], ['C07-R4', 'C06-R2'], 'core::cmp::min cap of the feed selection removed',
+   'selftest/neutral/R42.diff', (LIB, """                    core::cmp::min(
+                        self.estimate_feed_capacity(buf.remaining_mut()),
+                        u16::MAX.into(),
+                    ),""", """                    self.estimate_feed_capacity(buf.remaining_mut()),"""))
+MP('r42_is_empty_reads_flop', ['C15'], ['C15-R0'], 'len()==0 form of Broadcasts::is_empty reads the scratch heap',
+   'selftest/neutral/R42.diff', (BROADCAST, '        self.flip.len() == 0', '        self.flop.len() == 0'))
+MP('r43_take_failed_does_not_clear', ['C12'], ['C12-R1'], 'mem::take form of take_failed replaced by a clone (round not cleared)',
+   'selftest/neutral/R43.diff', (PROBE, '            core::mem::take(&mut self.direct)', '            self.direct.clone()'))
+MP('r43_is_probing_negated', ['C12'], ['C12-R0'], 'match-on-reference form of is_probing with the comparison negated',
+   'selftest/neutral/R43.diff', (PROBE, '            Some(probed) => probed.id() == id,', '            Some(probed) => probed.id() != id,'))
+MP('r44_identity_change_keeps_epoch', ['C13', 'C17'], ['C13-R1', 'C17-R2'], 'split reset: change_identity no longer calls the half that bumps the token',
+   'selftest/neutral/R44.diff', (LIB, """            let previous_id = mem::replace(&mut self.identity, new_id);
+
+            self.reset();
+            self.invalidate_timers();""", """            let previous_id = mem::replace(&mut self.identity, new_id);
+
+            self.reset();"""))
+MP('r44_max_tx_literal', ['C15', 'C16'], ['C15-R1', 'C16-R3'], 'handle_data hands a literal max_tx down to handle_custom_broadcasts',
+   'selftest/neutral/R44.diff', (LIB, """            Some(&src),
+            self.config.max_transmissions.get().into(),""", """            Some(&src),
+            1,"""))
+MP('r44_merged_table_entry', ['C01'], ['C01-R1'], 'precedence table merged into change_state, Suspect->Suspect accepts equal incarnation',
+   'selftest/neutral/R44.diff', (MEMBER, '                State::Alive | State::Suspect => incarnation > self.incarnation,', '                State::Alive | State::Suspect => incarnation >= self.incarnation,'))
+MP('r44_feed_capacity_args_swapped', ['C06'], ['C06-R2'], 'associated-function form of estimate_feed_capacity called with its two usize arguments swapped',
+   'selftest/neutral/R44.diff', (LIB, """                        Self::estimate_feed_capacity(
+                            self.config.max_packet_size.get(),
+                            buf.remaining_mut(),
+                        ),""", """                        Self::estimate_feed_capacity(
+                            buf.remaining_mut(),
+                            self.config.max_packet_size.get(),
+                        ),"""))
+MP('r44_receive_ack_wrong_number', ['C12'], ['C12-R1'], 'reordered receive_ack accepts any probe number but the current one',
+   'selftest/neutral/R44.diff', (PROBE, '        if probeno == self.probe_number\n            && self', '        if probeno != self.probe_number\n            && self'))
+MP('r45_decode_one_too_many', ['C06'], ['C06-R2'], 'counter form of the member-decoding loop runs while <=',
+   'selftest/neutral/R45.diff', (LIB, '            while num_decoded < num_updates {', '            while num_decoded <= num_updates {'))
+MP('r45_broadcast_flag_never_set', ['C16'], ['C16-R4'], 'flag form of broadcast(): the drained flag is never set',
+   'selftest/neutral/R45.diff', (LIB, '            backlog_drained = self.custom_broadcast_backlog() == 0;', '            backlog_drained = false;'))
+
+# "too cautious" mutants (after seed round 8): something that should happen is refused / skipped by a defensive-looking
+# guard; every safety-style rule stays satisfied, the converse direction of the rule must report it
+M('t_max_size_datagram_rejected', ['C07'], ['C07-R5'], 'handle_data rejects a datagram of exactly max_packet_size bytes (send_message can emit one)',
+  (LIB, '        if data.remaining() > self.config.max_packet_size.get() {', '        if data.remaining() >= self.config.max_packet_size.get() {'))
+M('t_single_member_never_probed', ['C12'], ['C12-R5'], 'a round is started only when there are at least two active members',
+  (LIB, '        if let Some(member) = self.members.next(&mut self.rng) {\n            let member_id = member.id().clone();',
+   '        let enough = self.members.num_active() > 1;\n        if let Some(member) = self.members.next(&mut self.rng).filter(|_| enough) {\n            let member_id = member.id().clone();'))
+M('t_refute_only_when_connected', ['C10'], ['C10-R1'], 'a suspicion is refuted (incarnation bumped) only while Connected',
+  (LIB, '                if increase_incarnation {\n                    // XXX Overzealous checking', '                if increase_incarnation && self.connection_state == ConnectionState::Connected {\n                    // XXX Overzealous checking'))
+M('t_connect_needs_two_members', ['C08'], ['C08-R5'], 'the instance becomes Connected (Active) only with two or more active members',
+  (LIB, '                if self.members.num_active() > 0 {\n                    self.become_connected(runtime);', '                if self.members.num_active() > 1 {\n                    self.become_connected(runtime);'))
+M('t_gossip_loop_needs_backlog', ['C13'], ['C13-R3'], 'become_connected arms the periodic gossip loop only when there is something to gossip',
+  (LIB, '        if let Some(ref params) = self.config.periodic_gossip {\n            runtime.submit_after(Timer::PeriodicGossip(self.timer_token), params.frequency);\n        }\n\n        runtime.notify(Notification::Active);',
+   '        if let Some(ref params) = self.config.periodic_gossip {\n            if !self.updates.is_empty() {\n                runtime.submit_after(Timer::PeriodicGossip(self.timer_token), params.frequency);\n            }\n        }\n\n        runtime.notify(Notification::Active);'))
+M('t_last_transmission_dropped', ['C15'], ['C15-R2'], 'an update with one transmission left after this send is not put back',
+  (BROADCAST, '            if node.remaining_tx > 0 {\n                self.flop.push(node);\n            }\n        }\n\n        self.flip.append(&mut self.flop);\n\n        num_taken\n    }\n\n    pub(crate) fn fill_with_len_prefix(',
+   '            if node.remaining_tx > 1 {\n                self.flop.push(node);\n            }\n        }\n\n        self.flip.append(&mut self.flop);\n\n        num_taken\n    }\n\n    pub(crate) fn fill_with_len_prefix('))
+M('t_remove_down_timer_only_when_broadcast', ['C11'], ['C11-R4'], 'the forget timer is scheduled only for updates that are also gossiped',
+  (LIB, '            if !summary.is_active_now {\n                runtime.submit_after(Timer::RemoveDown(id.clone()), self.config.remove_down_after);', '            if !summary.is_active_now && do_broadcast {\n                runtime.submit_after(Timer::RemoveDown(id.clone()), self.config.remove_down_after);'))
+M('t_gossip_only_active_set_changes', ['C15'], ['C15-R1'], 'an accepted update is queued for gossip only when it changed the active set (incarnation refreshes are not disseminated)',
+  (LIB, '            // Cluster state changed, start broadcasting it\n            if do_broadcast {', '            // Cluster state changed, start broadcasting it\n            if do_broadcast && summary.changed_active_set {'))
+M('t_payload_only_from_several_updates', ['C01'], ['C01-R5'], 'the payload of an active sender is applied only when it carries more than one update',
+  (LIB, '        self.apply_many(updates.drain(..), true, &mut runtime)?;', '        if updates.len() > 1 {\n            self.apply_many(updates.drain(..), true, &mut runtime)?;\n        }'))
+M('t_ack_not_while_probing_sender', ['C12'], ['C12-R4'], 'a Ping from the member currently being probed is not answered',
+  (LIB, '            Message::Ping(probe_number) => {\n                self.send_message(src, Message::Ack(probe_number), runtime)?;', '            Message::Ping(probe_number) => {\n                if !self.probe.is_probing(&src) {\n                    self.send_message(src, Message::Ack(probe_number), runtime)?;\n                }'))
+M('t_rename_only_when_active', ['C08'], ['C08-R2'], 'Rename is notified only when the replacing identity is active',
+  (LIB, '        if let member::ConflictResult::Replaced(old) = summary.conflict {', '        if let (member::ConflictResult::Replaced(old), true) = (summary.conflict, summary.is_active_now) {'))
+M('t_broadcast_dropped_when_alone', ['C16'], ['C16-R1'], 'add_broadcast reports Ok(true) but queues the item only when some member is active',
+  (LIB, '        {\n            self.custom_broadcasts.add_or_replace(\n                key,\n                data.to_vec(),\n                self.config.max_transmissions.get().into(),\n            );\n            Ok(true)',
+   '        {\n            if self.members.num_active() > 0 {\n                self.custom_broadcasts.add_or_replace(\n                    key,\n                    data.to_vec(),\n                    self.config.max_transmissions.get().into(),\n                );\n            }\n            Ok(true)'))
+M('t_custom_broadcasts_need_room_for_ten', ['C16'], ['C16-R3'], 'custom broadcasts ride along only when at least ten bytes are left (a smaller item that fits is omitted)',
+  (LIB, '        let add_custom_broadcast = buf.has_remaining_mut()\n', '        let add_custom_broadcast = buf.remaining_mut() >= 10\n'))
+M('t_custom_broadcasts_only_on_broadcast', ['C16'], ['C16-R3'], 'custom broadcasts ride only on Broadcast datagrams, no longer on the other kinds that allow them',
+  (LIB, '            && header.message.allow_custom_broadcasts()\n', '            && header.message == Message::Broadcast\n'))
+M('t_updates_need_room_for_twenty', ['C15'], ['C15-R4'], 'updates are piggybacked only when more than 20 bytes are left (a small update that fits is omitted)',
+  (LIB, '        if header.message.needs_piggyback() && buf.remaining_mut() > 2 {', '        if header.message.needs_piggyback() && buf.remaining_mut() > 20 {'))
+M('t_updates_not_on_ack', ['C15'], ['C15-R4'], 'updates are no longer piggybacked on Ack',
+  (LIB, '        if header.message.needs_piggyback() && buf.remaining_mut() > 2 {', '        if header.message.needs_piggyback() && !matches!(header.message, Message::Ack(_)) && buf.remaining_mut() > 2 {'))
+M('t_feed_stops_one_early', ['C07'], ['C07-R4'], 'the Feed loop stops when fewer than 64 bytes are left instead of when a member does not fit',
+  (LIB, '                while let Some(chosen) = self.choice_buf.pop() {\n                    let pos = buf.get_ref().len();', '                while let Some(chosen) = self.choice_buf.pop() {\n                    if buf.remaining_mut() < 64 {\n                        break;\n                    }\n                    let pos = buf.get_ref().len();'))
+M('t_probe_tick_needs_two_members', ['C13'], ['C13-R3'], 'a current probe tick probes (and re-arms) only when two or more members are active: with one peer the probe loop dies',
+  (LIB, '                    } else {\n                        self.probe_random_member(runtime)\n                    }', '                    } else if self.members.num_active() > 1 {\n                        self.probe_random_member(runtime)\n                    } else {\n                        Ok(())\n                    }'))
+M('t_postcard_member_decode_limit', ['C20'], ['C20-R2'], 'postcard decode_member refuses to look at more than 512 bytes of input (a valid member followed by a long tail fails)',
+  (POSTCARD, '        let (member, rest) = postcard::take_from_bytes(buf.chunk())?;\n        let after = rest.remaining();', '        if remaining > 512 {\n            return Err(postcard::Error::DeserializeUnexpectedEnd);\n        }\n        let (member, rest) = postcard::take_from_bytes(buf.chunk())?;\n        let after = rest.remaining();'))
